@@ -143,6 +143,8 @@ type c05MX struct {
 	// count), cname-servfail (the TLSA lookup at the canonical name fails), cname-match (authenticated matching
 	// record at the canonical name: used, whatever is published at the MX name)
 	CNAME string `json:"cname,omitempty"`
+	// the host has an AAAA record only (the dialer of the harness still reaches the scripted server)
+	V6Only bool `json:"ipv6_only,omitempty"`
 	// the server does not advertise the REQUIRETLS extension
 	NoReqTLS bool `json:"no_requiretls_extension"`
 }
@@ -188,6 +190,7 @@ func c05Gen(t *rapid.T) c05Scenario {
 		sc.MXs = append(sc.MXs, c05MX{Kind: rapid.SampledFrom(c05Kinds).Draw(t, "kind"),
 			TLSA: rapid.SampledFrom([]string{"none", "none", "ee-match", "ee-mismatch", "unusable", "servfail", "ta-match", "ta-match"}).Draw(t, "tlsa"), AD: rapid.IntRange(0, 3).Draw(t, "ad") != 0,
 			CNAME: rapid.SampledFrom([]string{"", "", "", "cname-none", "cname-servfail", "cname-match"}).Draw(t, "cname"),
+			V6Only:   rapid.IntRange(0, 4).Draw(t, "v6only") == 0,
 			NoReqTLS: rapid.IntRange(0, 2).Draw(t, "noreqtls") == 0})
 	}
 	for i, n := 0, rapid.IntRange(1, 3).Draw(t, "nmsgs"); i < n; i++ {
@@ -341,12 +344,18 @@ func c05Run(sc c05Scenario) (vs []ev.V) {
 		addrOf[name] = servers[i].Addr
 		mxRecs = append(mxRecs, net.MX{Host: name + ".", Pref: uint16(10 * (i + 1))})
 		zones[name+"."] = mockdns.Zone{AD: mx.AD, A: []string{"127.0.0.1"}}
+		if mx.V6Only {
+			zones[name+"."] = mockdns.Zone{AD: mx.AD, AAAA: []string{"::1"}}
+		}
 		leaf := c05Certs[name+"/"+mx.Kind].leaf
 		other := c05CA
 		if mx.CNAME != "" {
 			canon := "canon-" + name + "."
 			zones[name+"."] = mockdns.Zone{AD: mx.AD, CNAME: canon}
 			zones[canon] = mockdns.Zone{AD: mx.AD, A: []string{"127.0.0.1"}}
+			if mx.V6Only {
+				zones[canon] = mockdns.Zone{AD: mx.AD, AAAA: []string{"::1"}}
+			}
 			ctlsa := "_25._tcp." + canon
 			switch mx.CNAME {
 			case "cname-servfail":
